@@ -5,6 +5,7 @@ import (
 	"errors"
 	"fmt"
 	"os"
+	"os/user"
 	"path/filepath"
 	"sync"
 	"testing"
@@ -31,6 +32,7 @@ type FanSpec struct {
 	Quant     int             `json:"quant,omitempty"`    // device quantiser step (>1)
 	NoEnable  bool            `json:"noEnable,omitempty"` // hwmon fan without pwmN_enable
 	NoRpm     bool            `json:"noRpm,omitempty"`
+	TildeRpm  bool            `json:"tildeRpm,omitempty"` // file fan: rpmPath configured relative to the home directory ("~/...")
 	OrigMode  int             `json:"origMode"`
 	OrigPwm   int             `json:"origPwm"`
 	RpmAvg0   float64         `json:"rpmAvg0,omitempty"` // hwmon: average known from detection
@@ -266,6 +268,14 @@ func BuildRig(spec FanSpec, slot int, law RpmLaw, curve0 int) *Rig {
 		fc := &configuration.FileFanConfig{Path: pwmPath}
 		if !spec.NoRpm {
 			fc.RpmPath = rpmPath
+			if spec.TildeRpm {
+				// the documented "~/..." spelling: the device lives at <home>/<rel>, the configuration says ~/<rel>
+				if u, err := user.Current(); err == nil && u.HomeDir != "" {
+					rel := filepath.Join(".fan2go-verif-virtual", filepath.Base(dir), id+"_fan_input")
+					rpmPath = filepath.Join(u.HomeDir, rel)
+					fc.RpmPath = "~/" + rel
+				}
+			}
 			r.Rpm.Register(rpmPath)
 			r.paths = append(r.paths, rpmPath)
 		}
